@@ -9612,9 +9612,9 @@ def _write_node(node, xml_tree=None, viewport_transform=None):
             xml_tree.set(SVG_ATTR_CENTER_X, str(node.cx))
         if node.cy:
             xml_tree.set(SVG_ATTR_CENTER_Y, str(node.cy))
-        if node.rx:
+        if node.rx is not None:
             xml_tree.set(SVG_ATTR_RADIUS_X, str(node.rx))
-        if node.ry:
+        if node.ry is not None:
             xml_tree.set(SVG_ATTR_RADIUS_Y, str(node.ry))
     elif isinstance(node, Circle):
         xml_tree = subxml(xml_tree, SVG_TAG_CIRCLE)
@@ -9622,7 +9622,7 @@ def _write_node(node, xml_tree=None, viewport_transform=None):
             xml_tree.set(SVG_ATTR_CENTER_X, str(node.cx))
         if node.cy:
             xml_tree.set(SVG_ATTR_CENTER_Y, str(node.cy))
-        if node.rx:
+        if node.rx is not None:
             xml_tree.set(SVG_ATTR_RADIUS, str(node.rx))
     elif isinstance(node, Image):
         xml_tree = subxml(xml_tree, SVG_TAG_IMAGE)
@@ -9679,9 +9679,9 @@ def _write_node(node, xml_tree=None, viewport_transform=None):
             xml_tree.set(SVG_ATTR_RADIUS_X, str(node.rx))
         if node.ry:
             xml_tree.set(SVG_ATTR_RADIUS_Y, str(node.ry))
-        if node.width:
+        if node.width is not None:
             xml_tree.set(SVG_ATTR_WIDTH, str(node.width))
-        if node.height:
+        if node.height is not None:
             xml_tree.set(SVG_ATTR_HEIGHT, str(node.height))
     elif isinstance(node, Text):
         xml_tree = subxml(xml_tree, SVG_TAG_TEXT)
